@@ -147,8 +147,10 @@ func GenCase(r *rand.Rand, seed int64, kind string) Case {
 			// the remaining streams
 			cs.Chain = []ActionSpec{join}
 			cs.EventTimeoutMs = 30000
-			cs.Procs = pickInt(r, 1, 2)
-			cs.Sources = 3 + r.Intn(4)
+			cs.Procs = pickInt(r, 2, 4, 8) // the readers must really run in parallel
+			cs.Sources = 5 + r.Intn(4)
+			cs.Readers = cs.Sources
+			cs.ChargeRendezvous = 3
 			cs.Readers = cs.Sources
 			cs.Streams = 0
 			cs.Pattern = []string{"S", "P", "N", "N"}
@@ -276,7 +278,7 @@ func GenCase(r *rand.Rand, seed int64, kind string) Case {
 		}
 	}
 	holds := cs.OpWeights["hold"] > 0 || cs.OpWeights["collapse"] > 0 || cs.JoinPct > 0
-	if holds && cs.EventTimeoutMs > 300 {
+	if holds && cs.EventTimeoutMs > 300 && kind != "directed" {
 		// a held event at the end of a stream is only released by the stream
 		// time-out: keep it short so that runs stay short
 		cs.EventTimeoutMs = pickInt(r, 100, 300)
